@@ -549,6 +549,13 @@ class SSHStreamSession(Generic[AnyStr]):
                             exc = cast(Exception, recv_buf.pop(0))
 
                             if isinstance(exc, SoftEOFReceived):
+                                # A soft EOF ends this read like an EOF
+                                # would, without the data asked for
+                                if exact and n > 0:
+                                    raise asyncio.IncompleteReadError(
+                                        cast(bytes, '' if self._encoding
+                                             else b''), n)
+
                                 n = 0
                                 break
                             else:
@@ -644,7 +651,11 @@ class SSHStreamSession(Generic[AnyStr]):
                             exc = recv_buf.pop(0)
 
                             if isinstance(exc, SoftEOFReceived):
-                                return buf
+                                # As for EOF, report that no separator
+                                # was found. readline() turns this into
+                                # an empty result.
+                                raise asyncio.IncompleteReadError(
+                                    cast(bytes, buf), None)
                             else:
                                 raise cast(Exception, exc)
 
